@@ -5,8 +5,8 @@ import (
 	"crypto"
 	"encoding/hex"
 	"encoding/json"
-	"math/big"
 	"fmt"
+	"math/big"
 	"os"
 	"path/filepath"
 	"strconv"
